@@ -512,6 +512,7 @@ def r5_grid(ctx):
         if not good:
             ok = False
             why = f'export_string returns `{src(val)[:120]}`'
+    shared.check_stage_loop_complete(ctx, 'R5')
     ctx.check(ok, 'R5', es.loc, es.qualname, 'grid-assembly',
               'every non-empty row is emitted once, in order, as TAB-joined cells followed by a newline',
               why + ': not the rows that are not empty_row, in order, each as TAB.join(row) + NEWLINE')
